@@ -179,6 +179,28 @@ type frame struct {
 	backEdges        int     // loop back-edges taken in this activation
 }
 
+// permuteEntries reorders a small map iteration snapshot by a solver-
+// enumerated permutation index (all n! orders are explored).
+func permuteEntries(hi *hashmapIter) {
+	n := len(hi.snap)
+	fact := 1
+	for k := 2; k <= n; k++ {
+		fact *= k
+	}
+	s := symInt{X.fresh("mapperm", 64), types.Int}
+	X.assert("(bvult " + s.t + " " + bvc(uint64(fact), 64) + ")")
+	idx := int(X.concretise(s))
+	pool := append([]*entry{}, hi.snap...)
+	out := make([]*entry, 0, n)
+	for k := n; k >= 1; k-- {
+		j := idx % k
+		idx /= k
+		out = append(out, pool[j])
+		pool = append(pool[:j], pool[j+1:]...)
+	}
+	hi.snap = out
+}
+
 // spinner names the active function that has taken the most loop back-edges:
 // the loop that consumes the step budget.
 func spinner(fr *frame) string {
@@ -413,7 +435,13 @@ func visitInstr(fr *frame, instr ssa.Instruction) continuation {
 		fr.env[instr] = makeMap(instr.Type().Underlying().(*types.Map).Key(), reserve)
 
 	case *ssa.Range:
-		fr.env[instr] = rangeIter(fr.get(instr.X), instr.X.Type())
+		it := rangeIter(fr.get(instr.X), instr.X.Type())
+		if hi, ok := it.(*hashmapIter); ok && X.params["MAPPERM"] != 0 && len(hi.snap) >= 2 && len(hi.snap) <= 4 &&
+			fr.fn.Pkg != nil && strings.HasPrefix(fr.fn.Pkg.Pkg.Path(), "github.com/uber-go/gopatch") && !strings.Contains(fr.fn.Name(), "Verif") {
+			// Go leaves map iteration order unspecified: fork over every order.
+			permuteEntries(hi)
+		}
+		fr.env[instr] = it
 
 	case *ssa.Next:
 		fr.env[instr] = fr.get(instr.Iter).(iter).next()
